@@ -243,8 +243,20 @@ def finish(ctx, module):
             if model:
                 p["_model"] = model
             jobs.append((name, family, p))
-        ctx.log("replaying %d counterexample candidates on the JIT build" % len(jobs))
-        res = run_concrete(pid, jobs)
+        # identical (family, params) replays are run once and shared
+        uniq = {}
+        order = []
+        for name, family, p in jobs:
+            k = json.dumps([family, {a: b for a, b in p.items() if a != "_model"}], sort_keys=True, default=str)
+            if k not in uniq:
+                uniq[k] = len(order)
+                order.append((name, family, p))
+        ctx.log("replaying %d counterexample candidates (%d distinct replays) on the JIT build" % (len(jobs), len(order)))
+        ures = run_concrete(pid, order)
+        res = []
+        for name, family, p in jobs:
+            k = json.dumps([family, {a: b for a, b in p.items() if a != "_model"}], sort_keys=True, default=str)
+            res.append(ures[uniq[k]])
         seen_keys = set()
         for (name, family, params, model, what), (_, _, p), r in zip(candidates, jobs, res):
             if r.get("error"):
